@@ -7,6 +7,9 @@ mode:生成的加密算法
 void multiruncrypt_file(u8_t id, Aesmode &mode)
 {
   buffergroup *iobuffer = buffergroup::get_instance();
+  // do not look at the buffer before the I/O thread has handed it over for the first time:
+  // a worker that saw it empty and then found it READY gave the untouched chunk straight back
+  iobuffer->wait_buffer_ready(id);
   for (u8_t *block = iobuffer->require_buffer_entry(id); block != NULL; block = iobuffer->require_buffer_entry(id))
     mode.runcry(block);
 };
